@@ -140,6 +140,13 @@ fn cmd_check(args: &Args) -> i32 {
         return 2;
     }
     drop(probe);
+    let bin = match exec::stage_binary(&bin) {
+        Ok(b) => b,
+        Err(e) => {
+            eprintln!("HARNESS: {e}");
+            return 2;
+        }
+    };
     if let Some(r) = &args.replay {
         return minimise::cmd_replay(&bin, id, r);
     }
@@ -339,7 +346,13 @@ fn cmd_check(args: &Args) -> i32 {
 /// Determinism proof: every case is executed twice, in different scratch directories and on
 /// different worker threads; trace, exit status, stdout and the final tree must be identical.
 fn cmd_determinism(args: &Args) -> i32 {
-    let bin = sim_binary();
+    let bin = match exec::stage_binary(&sim_binary()) {
+        Ok(b) => b,
+        Err(e) => {
+            eprintln!("HARNESS: {e}");
+            return 2;
+        }
+    };
     let n = args.cases.unwrap_or(400);
     let base = Rng::new(args.seed).fork(0xD37);
     let next = Arc::new(AtomicU64::new(0));
